@@ -470,362 +470,6 @@ theorem sendMany_wire (E : Env) : ∀ (rs : List Bytes) (s : Conn),
 theorem sendKey_eq_peer_recvKey (E : Env) (b : Bool) : senderRecordKey E b = receiverRecordKey E (!b) := by
   cases b <;> rfl
 
-/-! ## what the application sees: `surfaced` is append-only and FIFO -/
-
-/-- while a consumer is attached nothing is queued (it was drained when the consumer was attached) -/
-def ConsInv (a : App) : Prop := a.consumer.isSome = true → a.inbound = []
-
-theorem delivered_emit (a : App) (evs : List Ev) :
-    (a.emit evs).delivered = a.delivered ++ evs.filterMap Ev.payload := by
-  simp [App.emit, App.delivered, List.filterMap_append]
-
-theorem deliverLoop_spec : ∀ (inb : List Bytes) (ws : List Reader) (nid : Nat) (lg : List Ev),
-    (deliverLoop inb ws nid lg).2.2.2.filterMap Ev.payload ++ (deliverLoop inb ws nid lg).1 =
-      lg.filterMap Ev.payload ++ inb := by
-  intro inb
-  induction inb with
-  | nil => intro ws nid lg; simp [deliverLoop]
-  | cons r rs ih =>
-    intro ws nid lg
-    cases ws with
-    | nil => simp [deliverLoop]
-    | cons d ds =>
-      simp only [deliverLoop]
-      split
-      · rw [ih]; simp [List.filterMap_append, Ev.payload]
-      · rw [ih]; simp [List.filterMap_append, Ev.payload]
-
-theorem deliverLoop_nil (ws : List Reader) (nid : Nat) (lg : List Ev) :
-    deliverLoop [] ws nid lg = ([], ws, nid, lg) := by
-  simp [deliverLoop]
-
-theorem deliverRecords_spec (a : App) :
-    (deliverRecords a).surfaced = a.surfaced ∧ (deliverRecords a).consumer = a.consumer ∧
-    (a.inbound = [] → (deliverRecords a).inbound = []) := by
-  have h := deliverLoop_spec a.inbound a.waiting a.nextId a.log
-  refine ⟨?_, ?_, ?_⟩
-  · simp only [deliverRecords, App.surfaced, App.delivered]
-    exact h
-  · simp [deliverRecords]
-  · intro h0
-    simp [deliverRecords, h0, deliverLoop_nil]
-
-theorem writeToConsumer_spec (a : App) (k : Consumer) (r : Bytes) (kick : Bool) :
-    (writeToConsumer a k r kick).delivered = a.delivered ++ (if kick then [] else [r]) ∧
-    (writeToConsumer a k r kick).inbound = a.inbound := by
-  simp only [writeToConsumer]
-  cases k.expected with
-  | none =>
-    cases kick <;> simp [App.delivered, List.filterMap_append, Ev.payload]
-  | some n =>
-    simp only
-    split
-    · cases kick <;>
-        simp [App.delivered, App.emit, disconnectConsumer, List.filterMap_append, Ev.payload]
-    · cases kick <;> simp [App.delivered, List.filterMap_append, Ev.payload]
-
-theorem recordReceived_spec (a : App) (r : Bytes) (h : ConsInv a) :
-    (recordReceived a r).surfaced = a.surfaced ++ [r] ∧ ConsInv (recordReceived a r) := by
-  unfold recordReceived
-  cases hc : a.consumer with
-  | some k =>
-    simp only
-    have h0 : a.inbound = [] := h (by simp [hc])
-    obtain ⟨w1, w2⟩ := writeToConsumer_spec a k r false
-    refine ⟨?_, ?_⟩
-    · simp [App.surfaced, w1, w2, h0]
-    · intro _; rw [w2, h0]
-  | none =>
-    simp only
-    obtain ⟨d1, d2, _⟩ := deliverRecords_spec { a with inbound := a.inbound ++ [r] }
-    simp only [hc] at d1 d2
-    refine ⟨?_, ?_⟩
-    · rw [d1]; simp [App.surfaced, App.delivered]
-    · intro hs; rw [d2] at hs; simp at hs
-
-theorem receiveRecord_spec (a : App) (chain : Nat) (h : ConsInv a) :
-    (receiveRecord a chain).surfaced = a.surfaced ∧ ConsInv (receiveRecord a chain) := by
-  unfold receiveRecord
-  obtain ⟨d1, d2, d3⟩ := deliverRecords_spec { a with waiting := a.waiting ++ [⟨a.nextId, chain⟩], nextId := a.nextId + 1 }
-  refine ⟨?_, ?_⟩
-  · rw [d1]; rfl
-  · intro hs
-    rw [d2] at hs
-    exact d3 (h hs)
-
-theorem drain_spec : ∀ (inb : List Bytes) (a : App),
-    (drain inb a).delivered ++ (drain inb a).inbound = a.delivered ++ inb ∧ ConsInv (drain inb a) := by
-  intro inb
-  induction inb with
-  | nil => intro a; simp [drain, App.delivered, ConsInv]
-  | cons r rs ih =>
-    intro a
-    simp only [drain]
-    cases hc : a.consumer with
-    | none => simp [App.delivered, ConsInv]
-    | some k =>
-      simp only
-      obtain ⟨i1, i2⟩ := ih (writeToConsumer { a with inbound := rs } k r false)
-      obtain ⟨w1, _⟩ := writeToConsumer_spec { a with inbound := rs } k r false
-      simp only [hc] at i1 i2 w1
-      refine ⟨?_, i2⟩
-      rw [i1, w1]
-      simp [App.delivered]
-
-theorem connectConsumer_spec (a : App) (ex : Option Nat) (h : ConsInv a) :
-    (connectConsumer a ex).1.surfaced = a.surfaced ∧ ConsInv (connectConsumer a ex).1 := by
-  unfold connectConsumer
-  cases hc : a.consumer with
-  | some k => exact ⟨rfl, h⟩
-  | none =>
-    simp only
-    split
-    · rename_i he
-      obtain ⟨w1, w2⟩ := writeToConsumer_spec { a with consumer := some ⟨0, ex⟩, log := a.log ++ [.reg] } ⟨0, ex⟩ [] true
-      obtain ⟨d1, d2⟩ := drain_spec
-        (writeToConsumer { a with consumer := some ⟨0, ex⟩, log := a.log ++ [.reg] } ⟨0, ex⟩ [] true).inbound
-        (writeToConsumer { a with consumer := some ⟨0, ex⟩, log := a.log ++ [.reg] } ⟨0, ex⟩ [] true)
-      refine ⟨?_, d2⟩
-      simp only [App.surfaced]
-      rw [d1, w1, w2]
-      simp [App.delivered, List.filterMap_append, Ev.payload]
-    · obtain ⟨d1, d2⟩ := drain_spec a.inbound { a with consumer := some ⟨0, ex⟩, log := a.log ++ [.reg] }
-      refine ⟨?_, d2⟩
-      simp only [App.surfaced]
-      rw [d1]
-      simp [App.delivered, List.filterMap_append, Ev.payload]
-
-theorem filterMap_payload_failed (ws : List Reader) :
-    (ws.map (fun (d : Reader) => Ev.failed d.id)).filterMap Ev.payload = [] := by
-  induction ws with
-  | nil => rfl
-  | cons d ds ih => simp [Ev.payload]
-
-theorem connectionLost_spec (a : App) (h : ConsInv a) :
-    (connectionLost a).surfaced = a.surfaced ∧ ConsInv (connectionLost a) ∧ (connectionLost a).waiting = [] := by
-  unfold connectionLost
-  simp only
-  split
-  · refine ⟨?_, ?_, rfl⟩
-    · simp only [App.surfaced, App.delivered, App.emit, List.filterMap_append, filterMap_payload_failed]
-      simp [Ev.payload]
-    · exact h
-  · refine ⟨?_, ?_, rfl⟩
-    · simp only [App.surfaced, App.delivered, List.filterMap_append, filterMap_payload_failed]
-      simp
-    · exact h
-
-theorem close_spec (a : App) (h : ConsInv a) :
-    (close a).surfaced = a.surfaced ∧ ConsInv (close a) ∧ (close a).waiting = [] := by
-  unfold close
-  refine ⟨?_, h, rfl⟩
-  simp only [App.surfaced, App.delivered, List.filterMap_append, filterMap_payload_failed]
-  simp [Ev.payload]
-
-theorem foldl_recordReceived_spec : ∀ (rs : List Bytes) (a : App), ConsInv a →
-    (rs.foldl recordReceived a).surfaced = a.surfaced ++ rs ∧ ConsInv (rs.foldl recordReceived a) := by
-  intro rs
-  induction rs with
-  | nil => intro a h; simp [h]
-  | cons r rs ih =>
-    intro a h
-    obtain ⟨s1, s2⟩ := recordReceived_spec a r h
-    obtain ⟨i1, i2⟩ := ih (recordReceived a r) s2
-    simp only [List.foldl_cons]
-    exact ⟨by rw [i1, s1]; simp, i2⟩
-
-/-! ## the prefix invariant (any bytes, any interleaving of application calls) -/
-
-/-- what was accepted so far is a prefix of what was sent, and while the connection is alive the
-    receive counter equals the number of records accepted -/
-def Inv (rs : List Bytes) (c : Conn) : Prop :=
-  c.app.surfaced <+: rs ∧ (c.state = .records → c.app.surfaced.length = c.nextReceiveNonce) ∧ ConsInv c.app
-
-theorem prefix_snoc {l rs : List Bytes} {i : Nat} (h : l <+: rs) (hl : l.length = i) (hi : i < rs.length) :
-    l ++ [rs[i]] <+: rs := by
-  obtain ⟨t, rfl⟩ := h
-  subst hl
-  cases t with
-  | nil => simp at hi
-  | cons x t =>
-    refine ⟨t, ?_⟩
-    simp
-
-/-- the `only` half of `IdealFor`, as the loop needs it -/
-def OnlyHonest (E : Env) (key : Bytes) (rs : List Bytes) : Prop :=
-  ∀ n c m, E.box.dec key n c = some m → ∃ i, ∃ h : i < rs.length, n = beFixed 24 i ∧ m = rs[i]
-
-theorem loop_inv (E : Env) (rs : List Bytes) (b : Bool) (hcount : rs.length ≤ 256 ^ 24)
-    (honly : OnlyHonest E (receiverRecordKey E b) rs) : ∀ (f : Nat) (c : Conn),
-    c.isSender = b → c.state = .records → Inv rs c →
-    (dataReceivedRECORDS E f c).1.app.surfaced <+: rs ∧ ConsInv (dataReceivedRECORDS E f c).1.app ∧
-    ((dataReceivedRECORDS E f c).2 = none →
-      (dataReceivedRECORDS E f c).1.app.surfaced.length = (dataReceivedRECORDS E f c).1.nextReceiveNonce) := by
-  intro f
-  induction f with
-  | zero =>
-    intro c _ hst hinv
-    simp only [dataReceivedRECORDS]
-    exact ⟨hinv.1, hinv.2.2, fun _ => hinv.2.1 hst⟩
-  | succ f ih =>
-    intro c hb hst hinv
-    unfold dataReceivedRECORDS
-    cases hp : parseFrame c.buf with
-    | none => exact ⟨hinv.1, hinv.2.2, fun _ => hinv.2.1 hst⟩
-    | some p =>
-      obtain ⟨enc, rest⟩ := p
-      simp only
-      cases hd : decryptRecord E { c with buf := rest } enc with
-      | mk c2 res =>
-        cases res with
-        | error e =>
-          obtain ⟨ha, _, _, _⟩ := decryptRecord_error hd
-          simp only at ha ⊢
-          rw [ha]
-          exact ⟨hinv.1, hinv.2.2, fun h => by simp at h⟩
-        | ok r =>
-          obtain ⟨hc2, hnonce, _, hdec⟩ := decryptRecord_ok hd
-          simp only at hc2 hnonce hdec
-          rw [hb] at hdec
-          obtain ⟨i, hi, hn, hr⟩ := honly _ _ _ hdec
-          have hi' : i < 256 ^ 24 := by omega
-          rw [hn, beDecode_beFixed_lt hi'] at hnonce
-          have hlen : c.app.surfaced.length = i := by rw [hinv.2.1 hst, hnonce]
-          obtain ⟨s1, s2⟩ := recordReceived_spec c.app r hinv.2.2
-          simp only
-          apply ih
-          · rw [hc2]; exact hb
-          · rw [hc2]; exact hst
-          · subst hc2
-            refine ⟨?_, ?_, ?_⟩
-            · simp only
-              rw [s1, hr]
-              exact prefix_snoc hinv.1 hlen hi
-            · intro _
-              simp only
-              rw [s1]
-              simp [hlen, hnonce]
-            · exact s2
-
-theorem emit_lose_surfaced (a : App) : (a.emit [.lose]).surfaced = a.surfaced := by
-  simp [App.surfaced, App.delivered, App.emit, List.filterMap_append, Ev.payload]
-
-theorem rx_fields (E : Env) (c : Conn) :
-    (rx E c).1.isSender = c.isSender ∧ (rx E c).1.state = c.state ∧
-    (rx E c).1.sendNonce = c.sendNonce ∧ (rx E c).1.error = c.error := loop_fields E _ c
-
-theorem dataReceived_isSender (E : Env) (c : Conn) (d : Bytes) : (dataReceived E c d).1.isSender = c.isSender := by
-  cases hs : c.state with
-  | hungUp => rw [dataReceived_hung E hs d]
-  | records =>
-    rw [dataReceived_records E hs d]
-    have := (rx_fields E { c with buf := c.buf ++ d }).1
-    cases hrx : rx E { c with buf := c.buf ++ d } with
-    | mk c2 res =>
-      rw [hrx] at this
-      cases res with
-      | none => exact this
-      | some e => exact this
-
-theorem rx_inv (E : Env) (rs : List Bytes) (b : Bool) (hcount : rs.length ≤ 256 ^ 24)
-    (honly : OnlyHonest E (receiverRecordKey E b) rs) (c : Conn)
-    (hb : c.isSender = b) (hs : c.state = .records) (hinv : Inv rs c) :
-    (rx E c).1.app.surfaced <+: rs ∧ ConsInv (rx E c).1.app ∧
-    ((rx E c).2 = none → (rx E c).1.app.surfaced.length = (rx E c).1.nextReceiveNonce) :=
-  loop_inv E rs b hcount honly _ c hb hs hinv
-
-theorem dataReceived_inv (E : Env) (rs : List Bytes) (b : Bool) (hcount : rs.length ≤ 256 ^ 24)
-    (honly : OnlyHonest E (receiverRecordKey E b) rs) (c : Conn) (d : Bytes)
-    (hb : c.isSender = b) (hinv : Inv rs c) : Inv rs (dataReceived E c d).1 := by
-  cases hs : c.state with
-  | hungUp =>
-    rw [dataReceived_hung E hs d]
-    exact ⟨hinv.1, fun h => by simp [hs] at h, hinv.2.2⟩
-  | records =>
-    rw [dataReceived_records E hs d]
-    have hl := rx_inv E rs b hcount honly { c with buf := c.buf ++ d } hb hs ⟨hinv.1, hinv.2.1, hinv.2.2⟩
-    cases hrx : rx E { c with buf := c.buf ++ d } with
-    | mk c2 res =>
-      rw [hrx] at hl
-      cases res with
-      | none => exact ⟨hl.1, fun _ => hl.2.2 rfl, hl.2.1⟩
-      | some e =>
-        refine ⟨?_, fun h => by simp [hangUp] at h, ?_⟩
-        · simp only [hangUp]; rw [emit_lose_surfaced]; exact hl.1
-        · intro h; exact hl.2.1 h
-
-theorem step_isSender (E : Env) (c : Conn) (op : Op) : (step E c op).isSender = c.isSender := by
-  cases op <;> simp [step, dataReceived_isSender]
-
-theorem step_inv (E : Env) (rs : List Bytes) (b : Bool) (hcount : rs.length ≤ 256 ^ 24)
-    (honly : OnlyHonest E (receiverRecordKey E b) rs) (c : Conn) (op : Op)
-    (hb : c.isSender = b) (hinv : Inv rs c) : Inv rs (step E c op) := by
-  cases op with
-  | data d => exact dataReceived_inv E rs b hcount honly c d hb hinv
-  | read ch =>
-    obtain ⟨s1, s2⟩ := receiveRecord_spec c.app ch hinv.2.2
-    exact ⟨by simp only [step]; rw [s1]; exact hinv.1, by simp only [step]; rw [s1]; exact hinv.2.1, s2⟩
-  | consume ex =>
-    obtain ⟨s1, s2⟩ := connectConsumer_spec c.app ex hinv.2.2
-    exact ⟨by simp only [step]; rw [s1]; exact hinv.1, by simp only [step]; rw [s1]; exact hinv.2.1, s2⟩
-  | lost =>
-    obtain ⟨s1, s2, _⟩ := connectionLost_spec c.app hinv.2.2
-    exact ⟨by simp only [step]; rw [s1]; exact hinv.1, by simp only [step]; rw [s1]; exact hinv.2.1, s2⟩
-  | close =>
-    obtain ⟨s1, s2, _⟩ := close_spec c.app hinv.2.2
-    exact ⟨by simp only [step]; rw [s1]; exact hinv.1, by simp only [step]; rw [s1]; exact hinv.2.1, s2⟩
-
-theorem run_inv (E : Env) (rs : List Bytes) (b : Bool) (hcount : rs.length ≤ 256 ^ 24)
-    (honly : OnlyHonest E (receiverRecordKey E b) rs) : ∀ (ops : List Op) (c : Conn),
-    c.isSender = b → Inv rs c → Inv rs (run E c ops) := by
-  intro ops
-  induction ops with
-  | nil => intro c _ h; exact h
-  | cons op ops ih =>
-    intro c hb h
-    exact ih (step E c op) ((step_isSender E c op).trans hb) (step_inv E rs b hcount honly c op hb h)
-
-theorem init_inv (rs : List Bytes) (b : Bool) (left : Bytes) : Inv rs (Conn.init b left) := by
-  refine ⟨?_, ?_, ?_⟩
-  · simp [Conn.init, App.init, App.surfaced, App.delivered]
-  · intro _; simp [Conn.init, App.init, App.surfaced, App.delivered]
-  · intro h; simp [Conn.init, App.init] at h
-
-/-! ## hung up is final -/
-
-theorem step_hung (E : Env) (c : Conn) (op : Op) (h : c.state = .hungUp) (hc : ConsInv c.app) :
-    (step E c op).state = .hungUp ∧ (step E c op).app.surfaced = c.app.surfaced ∧ ConsInv (step E c op).app ∧
-    (step E c op).nextReceiveNonce = c.nextReceiveNonce ∧ (step E c op).error = c.error := by
-  cases op with
-  | data d =>
-    simp only [step]
-    rw [dataReceived_hung E h d]
-    exact ⟨h, rfl, hc, rfl, rfl⟩
-  | read ch =>
-    obtain ⟨s1, s2⟩ := receiveRecord_spec c.app ch hc
-    exact ⟨h, s1, s2, rfl, rfl⟩
-  | consume ex =>
-    obtain ⟨s1, s2⟩ := connectConsumer_spec c.app ex hc
-    exact ⟨h, s1, s2, rfl, rfl⟩
-  | lost =>
-    obtain ⟨s1, s2, _⟩ := connectionLost_spec c.app hc
-    exact ⟨h, s1, s2, rfl, rfl⟩
-  | close =>
-    obtain ⟨s1, s2, _⟩ := close_spec c.app hc
-    exact ⟨h, s1, s2, rfl, rfl⟩
-
-theorem run_hung (E : Env) : ∀ (ops : List Op) (c : Conn), c.state = .hungUp → ConsInv c.app →
-    (run E c ops).state = .hungUp ∧ (run E c ops).app.surfaced = c.app.surfaced ∧
-    (run E c ops).nextReceiveNonce = c.nextReceiveNonce ∧ (run E c ops).error = c.error := by
-  intro ops
-  induction ops with
-  | nil => intro c h _; exact ⟨h, rfl, rfl, rfl⟩
-  | cons op ops ih =>
-    intro c h hc
-    obtain ⟨a1, a2, a3, a4, a5⟩ := step_hung E c op h hc
-    obtain ⟨b1, b2, b3, b4⟩ := ih (step E c op) a1 a3
-    exact ⟨b1, b2.trans a2, b3.trans a4, b4.trans a5⟩
-
 /-! ## rejection -/
 
 theorem take_nonce_not_empty {enc : Bytes} (h : enc ≠ []) :
@@ -895,109 +539,11 @@ theorem drop_at (E : Env) (c : Conn) (rs : List Bytes) (i : Nat) (e tail : Bytes
     simp only at ha hb
     exact ⟨rfl, rfl, hb, by show c2.app.emit [.lose] = _; rw [ha]⟩
 
-/-! ## consumer mode -/
-
-theorem deliverLoop_cw : ∀ (inb : List Bytes) (ws : List Reader) (nid : Nat) (lg : List Ev),
-    (deliverLoop inb ws nid lg).2.2.2.filterMap Ev.cw = lg.filterMap Ev.cw ∧
-    (deliverLoop inb ws nid lg).2.2.2.filterMap Ev.doneVal = lg.filterMap Ev.doneVal := by
-  intro inb
-  induction inb with
-  | nil => intro ws nid lg; simp [deliverLoop]
-  | cons r rs ih =>
-    intro ws nid lg
-    cases ws with
-    | nil => simp [deliverLoop]
-    | cons d ds =>
-      simp only [deliverLoop]
-      split
-      · rw [(ih _ _ _).1, (ih _ _ _).2]; simp [List.filterMap_append, Ev.cw, Ev.doneVal]
-      · rw [(ih _ _ _).1, (ih _ _ _).2]; simp [List.filterMap_append, Ev.cw, Ev.doneVal]
-
-theorem recordReceived_none (a : App) (r : Bytes) (h : a.consumer = none) :
-    (recordReceived a r).consumer = none ∧ (recordReceived a r).consumerWrites = a.consumerWrites ∧
-    (recordReceived a r).dones = a.dones := by
-  simp only [recordReceived, h]
-  have hl := deliverLoop_cw (a.inbound ++ [r]) a.waiting a.nextId a.log
-  simp only [deliverRecords, App.consumerWrites, App.dones]
-  exact ⟨by simp, hl.1, hl.2⟩
-
-theorem foldl_none : ∀ (rs : List Bytes) (a : App), a.consumer = none →
-    (rs.foldl recordReceived a).consumer = none ∧ (rs.foldl recordReceived a).consumerWrites = a.consumerWrites ∧
-    (rs.foldl recordReceived a).dones = a.dones := by
-  intro rs
-  induction rs with
-  | nil => intro a h; exact ⟨h, rfl, rfl⟩
-  | cons r rs ih =>
-    intro a h
-    obtain ⟨h1, h2, h3⟩ := recordReceived_none a r h
-    obtain ⟨i1, i2, i3⟩ := ih (recordReceived a r) h1
-    exact ⟨i1, i2.trans h2, i3.trans h3⟩
-
-/-- `_writeToConsumer` below / at the threshold -/
-theorem recordReceived_consumer (a : App) (w N : Nat) (r : Bytes) (h : a.consumer = some ⟨w, some N⟩) :
-    (recordReceived a r).consumerWrites = a.consumerWrites ++ [r] ∧
-    (recordReceived a r).inbound = a.inbound ∧
-    (w + r.length < N → (recordReceived a r).consumer = some ⟨w + r.length, some N⟩ ∧
-        (recordReceived a r).dones = a.dones) ∧
-    (N ≤ w + r.length → (recordReceived a r).consumer = none ∧
-        (recordReceived a r).dones = a.dones ++ [w + r.length]) := by
-  simp only [recordReceived, h, writeToConsumer]
-  by_cases hlt : w + r.length ≥ N
-  · rw [if_pos hlt]
-    refine ⟨?_, rfl, fun h' => by omega, fun _ => ⟨rfl, ?_⟩⟩
-    · simp [App.consumerWrites, App.emit, disconnectConsumer, List.filterMap_append, Ev.cw]
-    · simp [App.dones, App.emit, disconnectConsumer, List.filterMap_append]
-      rfl
-  · rw [if_neg hlt]
-    refine ⟨?_, rfl, fun _ => ⟨rfl, ?_⟩, fun h' => by omega⟩
-    · simp [App.consumerWrites, List.filterMap_append, Ev.cw]
-    · simp [App.dones, List.filterMap_append, Ev.doneVal]
-
-theorem consumer_fold (N : Nat) : ∀ (rs : List Bytes) (a : App) (w : Nat),
-    a.consumer = some ⟨w, some N⟩ → w < N →
-    ∃ k, k ≤ rs.length ∧
-      (rs.foldl recordReceived a).consumerWrites = a.consumerWrites ++ rs.take k ∧
-      (((rs.foldl recordReceived a).consumer = some ⟨w + (rs.take k).flatten.length, some N⟩ ∧ k = rs.length ∧
-          w + rs.flatten.length < N ∧ (rs.foldl recordReceived a).dones = a.dones) ∨
-       ((rs.foldl recordReceived a).consumer = none ∧ 0 < k ∧
-          w + (rs.take (k - 1)).flatten.length < N ∧ N ≤ w + (rs.take k).flatten.length ∧
-          (rs.foldl recordReceived a).dones = a.dones ++ [w + (rs.take k).flatten.length])) := by
-  intro rs
-  induction rs with
-  | nil =>
-    intro a w h hw
-    exact ⟨0, Nat.le_refl _, by simp, .inl ⟨by simpa using h, rfl, by simpa using hw, rfl⟩⟩
-  | cons r rs ih =>
-    intro a w h hw
-    obtain ⟨c1, _, c3, c4⟩ := recordReceived_consumer a w N r h
-    simp only [List.foldl_cons]
-    have key : ∀ l : List Bytes, (r :: l).flatten.length = r.length + l.flatten.length := by
-      intro l; simp
-    by_cases hlt : w + r.length < N
-    · obtain ⟨d1, d2⟩ := c3 hlt
-      obtain ⟨k, hk, e1, e2⟩ := ih (recordReceived a r) (w + r.length) d1 hlt
-      refine ⟨k + 1, by simp; omega, ?_, ?_⟩
-      · rw [e1, c1]; simp
-      · rcases e2 with ⟨f1, f2, f3, f4⟩ | ⟨f1, f2, f3, f4, f5⟩
-        · refine .inl ⟨?_, by simp [f2], ?_, f4.trans d2⟩
-          · rw [f1, List.take_succ_cons, key, Nat.add_assoc]
-          · rw [key]; omega
-        · refine .inr ⟨f1, by omega, ?_, ?_, ?_⟩
-          · obtain ⟨k', rfl⟩ : ∃ k', k = k' + 1 := ⟨k - 1, by omega⟩
-            rw [Nat.add_sub_cancel] at f3 ⊢
-            rw [List.take_succ_cons, key]; omega
-          · rw [List.take_succ_cons, key]; omega
-          · rw [f5, d2, List.take_succ_cons, key, Nat.add_assoc]
-    · have hge : N ≤ w + r.length := by omega
-      obtain ⟨d1, d2⟩ := c4 hge
-      obtain ⟨g1, g2, g3⟩ := foldl_none rs (recordReceived a r) d1
-      refine ⟨1, by simp, ?_, .inr ⟨g1, by omega, ?_, ?_, ?_⟩⟩
-      · rw [g2, c1]; simp
-      · simpa using hw
-      · simpa using hge
-      · rw [g3, d2]; simp
-
 /-! ## rejection of anything the honest sender did not seal for this position -/
+
+/-- the `only` half of `IdealFor`, as the loop needs it -/
+def OnlyHonest (E : Env) (key : Bytes) (rs : List Bytes) : Prop :=
+  ∀ n c m, E.box.dec key n c = some m → ∃ i, ∃ h : i < rs.length, n = beFixed 24 i ∧ m = rs[i]
 
 theorem IdealFor.onlyHonest {E : Env} {key : Bytes} {rs : List Bytes} (h : IdealFor E.box key rs) :
     OnlyHonest E key rs := by
@@ -1063,3 +609,4 @@ theorem idealBox_ideal (k0 : Bytes) (rs : List Bytes) : IdealFor (idealBox k0 rs
     · simp at h
 
 end WV.C06
+
